@@ -34,8 +34,9 @@ End of a pass.  `Registry.Ev.passEndHint` is enabled at every `passIter` pc (a G
 added meanwhile); that over-approximation is kept for the PERIODIC passes (sound for safety properties).  For the
 FINAL pass the model is exact: Go guarantees that an entry that was in the map when the range loop started and has
 not been deleted is visited, so `closerEnd` is enabled only when every entry `(k, sid)` of the snapshot `snap`
-(taken at the pass's `RLock`) that is still registered has `k` among the visited keys.  (An entry, once deleted, is
-never re-inserted with the same scope: deletions are of closed scopes, insertions of live ones.)
+(taken at the pass's `RLock`) that is still registered is among the visited ENTRIES `(key, scope id)` of the pass.  (An
+entry, once deleted, is never re-inserted with the same scope: deletions are of closed scopes, insertions of live ones;
+a key registered again for a new scope object is a new entry, which the pass may produce or skip.)
 
 `purge` takes the shard's WRITE lock: enabled only when `reg.readers = []`; every registered scope gets
 `closed := true`, is cleared (its cell goes to `dropped`) and unregistered, in one step.
@@ -152,8 +153,8 @@ def purgeReg (r : Registry.State) : Registry.State :=
   { r with scopes := purgeScopes r.reg 0 r.scopes, reg := [],
            dropped := purgedToks r.reg 0 r.scopes ++ r.dropped }
 
-/-- the keys a pass at this pc has visited (or is visiting) -/
-def visitedOf : Pc → List Nat
+/-- the entries `(key, scope id)` a pass at this pc has visited (or is visiting) -/
+def visitedOf : Pc → List (Nat × Nat)
   | .passIter v | .passSwap v .. | .passDeliver v .. | .passAfter v .. => v
   | .passUnlocked v .. | .passRelock v .. | .passClear v .. => v
   | _ => []
@@ -161,7 +162,7 @@ def visitedOf : Pc → List Nat
 /-- Go's range-loop guarantee for the final pass: every entry of the snapshot that is still in the map has been
 visited -/
 def finalPassComplete (s : State) (t : Nat) : Bool :=
-  s.reg.reg.all fun q => !(s.snap.contains q) || (visitedOf (Registry.pcOf s.reg (closerTid t))).contains q.1
+  s.reg.reg.all fun q => !(s.snap.contains q) || (visitedOf (Registry.pcOf s.reg (closerTid t))).contains q
 
 /-- one atomic action; `none` = not enabled -/
 def step (san : Nat → Nat) (s : State) : Ev → Option State
